@@ -17,8 +17,8 @@ ID = "C13"
 CASES = {"quick": 480, "thorough": 6000}
 FLOOR = {"quick": 420, "thorough": 5500}
 FLOOR_COUNTERS = {
-    "quick": {"relations_judged": 6000, "x_wider_cases": 50, "x_narrower_cases": 50, "lre_calls": 900, "grd_calls": 800, "overlapping_index_cases": 80, "planted_map_cases": 60, "reference_implementations_judged": 250},
-    "thorough": {"relations_judged": 80000, "x_wider_cases": 600, "x_narrower_cases": 600, "lre_calls": 12000, "grd_calls": 10000, "overlapping_index_cases": 1000, "planted_map_cases": 800, "reference_implementations_judged": 3500},
+    "quick": {"relations_judged": 6000, "x_wider_cases": 50, "x_narrower_cases": 50, "lre_calls": 900, "grd_calls": 800, "overlapping_index_cases": 80, "planted_map_cases": 60, "reference_implementations_judged": 250, "large_offset_shift_relations": 200},
+    "thorough": {"relations_judged": 80000, "x_wider_cases": 600, "x_narrower_cases": 600, "lre_calls": 12000, "grd_calls": 10000, "overlapping_index_cases": 1000, "planted_map_cases": 800, "reference_implementations_judged": 3500, "large_offset_shift_relations": 2500},
 }
 RULE = (
     "case = X, Y with equal sample count (12-60) and feature counts 2-8 on each side (X wider / equal / narrower by "
@@ -72,8 +72,8 @@ def gen(rng, tier, index):
         "A": [rng.normal(size=(f, w)) for w in (max(1, f - 2), f, f + 3)],
         "cx": float(gens.pick(rng, (-1, 1)) * 10.0 ** rng.uniform(-2, 2)),
         "cy": float(10.0 ** rng.uniform(-2, 2)),
-        "bx": rng.normal(size=f) * 3,
-        "by": rng.normal(size=p) * 3,
+        "bx": rng.normal(size=f) * 3 * (1.0 if rng.random() < 0.6 else float(10.0 ** rng.uniform(2, 7))),
+        "by": rng.normal(size=p) * 3 * (1.0 if rng.random() < 0.6 else float(10.0 ** rng.uniform(2, 7))),
         "u": float(rng.random()),
         "alpha": float(10.0 ** rng.uniform(-4, -1)),
     }
@@ -157,7 +157,11 @@ def run(case, j):
             if nm == "LRE" and vi not in (case["lre_subset"] if case["est"] == "ridge" else case["lre_subset"][:1]):
                 continue  # the local measure refits per test point: a subset of the five relations per case
             w = g(a, b, **extra, **k())
-            j.close(f"{nm} unchanged: {lab}", w, v, 1e-6 * max(1.0, abs(v)))
+            big = max(float(np.abs(case["bx"]).max()), float(np.abs(case["by"]).max())) if "shifted" in lab else 0.0
+            if big > 100:
+                j.note("large_offset_shift_relations")
+            # a shift by b loses eps*|b| of absolute precision in the data itself
+            j.close(f"{nm} unchanged: {lab}", w, v, (1e-6 + 1e-12 * big) * max(1.0, abs(v)))
             j.note("relations_judged")
         if nm == "LRE" and case["est"] != "ridge":
             continue
